@@ -1,0 +1,8 @@
+//go:build !verif
+// +build !verif
+
+package ggql
+
+func verifYield(site string) {}
+
+func verifTick() {}
